@@ -35,12 +35,13 @@ _AXIS_POSITION = (
     "(?:center|left|right|inner|outer)"  # TODO use VALID_POSITION_NAMES here instead
 )
 _AXIS_NAME_POSITION_PAIR = f"{_AXIS_NAME}:{_AXIS_POSITION}"
+# empty, or pairs separated by single commas
 _AXIS_NAME_POSITION_PAIR_LIST = (
-    f"(?:{_AXIS_NAME_POSITION_PAIR}(?:,{_AXIS_NAME_POSITION_PAIR})*,?)*"
+    f"(?:{_AXIS_NAME_POSITION_PAIR}(?:,{_AXIS_NAME_POSITION_PAIR})*)?"
 )
 _ARGUMENT = rf"\({_AXIS_NAME_POSITION_PAIR_LIST}\)"
 _ARGUMENT_LIST = f"{_ARGUMENT}(?:,{_ARGUMENT})*"
-_SIGNATURE = f"^{_ARGUMENT_LIST}->{_ARGUMENT_LIST}$"
+_SIGNATURE = rf"^{_ARGUMENT_LIST}->{_ARGUMENT_LIST}\Z"
 
 
 def _maybe_unpack_vector_component(
